@@ -259,13 +259,20 @@ inductive Metric (α : Type) where
   | avg (f : Field) | wavg (f w : Field)
 deriving Repr
 
+/-- an aggregation nested inside the buckets of a terms / range aggregation: a metric or a sketch -/
+inductive SubAgg (α : Type) where
+  | metric (m : Metric α)
+  | card (f : Field)
+  | quant (f : Field)
+deriving Repr
+
 inductive Agg (α : Type) where
   | metric (m : Metric α)
   | card (f : Field)
   | quant (f : Field)
-  | terms (f : Field) (size : Nat) (subs : List (Metric α))       -- "count" is always present
-  | ranges (f : Field) (rs : List (α × α)) (subs : List (Metric α))
-  | dranges (f : Field) (rs : List (Option Int × Option Int)) (subs : List (Metric α))
+  | terms (f : Field) (size : Nat) (subs : List (SubAgg α))       -- "count" is always present
+  | ranges (f : Field) (rs : List (α × α)) (subs : List (SubAgg α))
+  | dranges (f : Field) (rs : List (Option Int × Option Int)) (subs : List (SubAgg α))
 deriving Repr
 
 /-- `SingleValueMetric.Fields` / `WeightedAvgMetric.Fields` (`countSource.Fields()` is nil) -/
@@ -273,6 +280,11 @@ def Metric.fields {α : Type} : Metric α → List Field
   | .count => []
   | .sum f | .min f | .max f | .maxFrom f _ | .avg f => [f]
   | .wavg f w => [f, w]
+
+/-- `CardinalityMetric.Fields` / `QuantilesMetric.Fields` = the source's fields -/
+def SubAgg.fields {α : Type} : SubAgg α → List Field
+  | .metric m => m.fields
+  | .card f | .quant f => [f]
 
 /-- Two facts about the code that decide which fields get loaded, and how often. The facts of the tree under
 check are regenerated from its source on every run (`go/extract/c16.go` → `BlugeGen.C16` →
@@ -297,15 +309,15 @@ included; `TermsAggregation.Fields` does include them. -/
 def Agg.fields {α : Type} (cf : CodeFacts) : Agg α → List Field
   | .metric m => m.fields
   | .card f | .quant f => [f]
-  | .terms f _ subs => f :: subs.flatMap Metric.fields
+  | .terms f _ subs => f :: subs.flatMap SubAgg.fields
   | .ranges f _ subs | .dranges f _ subs =>
-    if cf.rangeFieldsNested then f :: subs.flatMap Metric.fields else [f]
+    if cf.rangeFieldsNested then f :: subs.flatMap SubAgg.fields else [f]
 
 /-- the fields an aggregation READS when it consumes a match -/
 def Agg.reads {α : Type} : Agg α → List Field
   | .metric m => m.fields
   | .card f | .quant f => [f]
-  | .terms f _ subs | .ranges f _ subs | .dranges f _ subs => f :: subs.flatMap Metric.fields
+  | .terms f _ subs | .ranges f _ subs | .dranges f _ subs => f :: subs.flatMap SubAgg.fields
 
 /-- keep one occurrence of every field -/
 def dedup : List Field → List Field
@@ -382,6 +394,13 @@ structure TopN (μ κ σ : Type) where
   lowest : Option (Entry μ κ)
   hitNumber : Nat
   exits : Exits := {}
+
+/-- the order of the statements of `collectSingle` that the model below transcribes; `BlugeGen.C16.collectSingleOrder`
+is the same list regenerated from the source (obligation `collect_single_order`) -/
+def collectSingleSteps : List String := ["load", "sort", "consume", "after", "shortcut", "store"]
+
+/-- … and of `AllIterator.Next` (obligation `all_next_order`) -/
+def allNextSteps : List String := ["done-guard", "next", "end-of-matches", "load", "consume", "return-match"]
 
 /-- `collectSingle` in statement order: load doc values → compute sort → `bucket.Consume` → paging key →
 shortcut → store. `δ` is the hit as the searcher delivers it. Returns the new state and which way out was taken. -/
@@ -493,6 +512,18 @@ inductive MSt (α : Type) where
   | one (v : α)            -- SingleValueCalculator.val
   | two (w : WAvg α)       -- WeightedAvgCalculator{val, weights}
 
+/-- state of one nested aggregation of a bucket -/
+inductive SSt (α S Q : Type) where
+  | m (s : MSt α)
+  | card (s : S)
+  | quant (q : Q)
+
+/-- what is read from one nested aggregation of a bucket -/
+inductive SRes (α S Q : Type) where
+  | m (v : α)
+  | card (s : S)
+  | quant (q : Q)
+
 /-- what is not in the request: the two infinities, `uint64(x)`, `float64(n)` (specification only), the sort used
 by `TermsCalculator.Finish`, and the two sketch types -/
 structure Env (α S Q : Type) where
@@ -500,7 +531,7 @@ structure Env (α S Q : Type) where
   negInf : α
   toNat : α → Nat
   ofNat : Nat → α
-  sort : List (Term × List (MSt α)) → List (Term × List (MSt α))
+  sort : List (Term × List (SSt α S Q)) → List (Term × List (SSt α S Q))
   hll : S
   hllInsert : S → Term → S
   td : Q
@@ -508,16 +539,16 @@ structure Env (α S Q : Type) where
 
 inductive ASt (α S Q : Type) where
   | m (s : MSt α)
-  | t (s : TermsSt (List (MSt α)))
-  | r (s : List (List (MSt α)))
+  | t (s : TermsSt (List (SSt α S Q)))
+  | r (s : List (List (SSt α S Q)))
   | card (s : S)
   | quant (q : Q)
 
 inductive ARes (α S Q : Type) where
   | m (v : α)
   /-- nested results: "count" first, then the nested metrics in request order -/
-  | t (res : TermsRes (List α))
-  | r (bs : List (List α))
+  | t (res : TermsRes (List (SRes α S Q)))
+  | r (bs : List (List (SRes α S Q)))
   | card (s : S)
   | quant (q : Q)
 
@@ -539,18 +570,30 @@ def metricCalc (env : Env α S Q) : Metric α → Calc (DocVals α) (MSt α) α
   | .avg f => (avgCalc (numSrc f)).embed MSt.two MSt.two? 0
   | .wavg f w => (wavgCalc (numSrc f) (some (numSrc w))).embed MSt.two MSt.two? 0
 
-/-- the bucket of nested aggregations of a terms / range bucket: "count" first, then the requested metrics -/
-def subCalc (env : Env α S Q) (subs : List (Metric α)) : Calc (DocVals α) (List (MSt α)) (List α) :=
-  Calc.all ((Metric.count :: subs).map (metricCalc env))
+def SSt.m? : SSt α S Q → Option (MSt α) | .m s => some s | _ => none
+def SSt.card? : SSt α S Q → Option S | .card s => some s | _ => none
+def SSt.quant? : SSt α S Q → Option Q | .quant s => some s | _ => none
+
+/-- one nested aggregation: a metric, or a sketch fed by `CardinalityCalculator.Consume` / `QuantilesCalculator.Consume` -/
+def subCalc1 (env : Env α S Q) : SubAgg α → Calc (DocVals α) (SSt α S Q) (SRes α S Q)
+  | .metric m => ((metricCalc env m).mapVal SRes.m).embed SSt.m SSt.m? (.m 0)
+  | .card f => ((sketchCalc env.hll env.hllInsert (txtSrc f)).mapVal SRes.card).embed SSt.card SSt.card? (.m 0)
+  | .quant f => ((sketchCalc env.td env.tdAdd (numSrc f)).mapVal SRes.quant).embed SSt.quant SSt.quant? (.m 0)
+
+/-- the bucket of nested aggregations of a terms / range bucket: "count" first, then the requested ones.
+Every bucket gets its OWN calculators (`search.NewBucket` calls `Calculator()` of every definition; that each call
+builds fresh state is the regenerated fact `BlugeGen.C16.sharedMutable = []`). -/
+def subCalc (env : Env α S Q) (subs : List (SubAgg α)) : Calc (DocVals α) (List (SSt α S Q)) (List (SRes α S Q)) :=
+  Calc.all ((SubAgg.metric .count :: subs).map (subCalc1 env))
 
 /-- `uint64(bucket.Aggregations()["count"].Value())` -/
-def cntOf (env : Env α S Q) : List (MSt α) → Nat
-  | .one v :: _ => env.toNat v
+def cntOf (env : Env α S Q) : List (SSt α S Q) → Nat
+  | .m (.one v) :: _ => env.toNat v
   | _ => 0
 
 def ASt.m? : ASt α S Q → Option (MSt α) | .m s => some s | _ => none
-def ASt.t? : ASt α S Q → Option (TermsSt (List (MSt α))) | .t s => some s | _ => none
-def ASt.r? : ASt α S Q → Option (List (List (MSt α))) | .r s => some s | _ => none
+def ASt.t? : ASt α S Q → Option (TermsSt (List (SSt α S Q))) | .t s => some s | _ => none
+def ASt.r? : ASt α S Q → Option (List (List (SSt α S Q))) | .r s => some s | _ => none
 def ASt.card? : ASt α S Q → Option S | .card s => some s | _ => none
 def ASt.quant? : ASt α S Q → Option Q | .quant s => some s | _ => none
 
@@ -580,8 +623,15 @@ def specMetric (env : Env α S Q) (m : Metric α) (ms : List (DocVals α)) : α 
   | .avg f => specWAvg (numSrc f) none ms
   | .wavg f w => specWAvg (numSrc f) (some (numSrc w)) ms
 
-def specSubs (env : Env α S Q) (subs : List (Metric α)) (ms : List (DocVals α)) : List α :=
-  (Metric.count :: subs).map fun m => specMetric env m ms
+/-- direct definition of one nested aggregation: the metric's definition, or the sketch fed the values directly -/
+def specSub (env : Env α S Q) (x : SubAgg α) (ms : List (DocVals α)) : SRes α S Q :=
+  match x with
+  | .metric m => .m (specMetric env m ms)
+  | .card f => .card ((allVals (txtSrc f) ms).foldl env.hllInsert env.hll)
+  | .quant f => .quant ((allVals (numSrc f) ms).foldl env.tdAdd env.td)
+
+def specSubs (env : Env α S Q) (subs : List (SubAgg α)) (ms : List (DocVals α)) : List (SRes α S Q) :=
+  (SubAgg.metric .count :: subs).map fun x => specSub env x ms
 end Interp
 
 end Bluge.Agg
